@@ -561,11 +561,14 @@ class List(list, base.Symbolic, pg_typing.CustomTyping):
               f'attempt to assign sequence of size {len(replacements)} to '
               f'extended slice of size {len(positions)}')
       updates = []
-      for pos, r in zip(positions, replacements):
-        update = self._set_item_without_permission_check(pos, r)
-        if update is not None:
-          updates.append(update)
-      self._finalize_updates()
+      try:
+        for pos, r in zip(positions, replacements):
+          update = self._set_item_without_permission_check(pos, r)
+          if update is not None:
+            updates.append(update)
+      finally:
+        # NOTE: also when a value is rejected after earlier ones were stored.
+        self._finalize_updates()
       if flags.is_change_notification_enabled() and updates:
         self._notify_field_updates(updates)
     elif isinstance(index, numbers.Integral):
